@@ -215,7 +215,7 @@ def run_shard(ctx):
         direction_b(ctx, rng.choice(JWS_ALGS), rng.choice(forms), rng.choice(STYLES), rng.choice(B_PAYLOADS), rng)
 
 
-REQUIRE = [("a_checked", 300, "joserfc->refjose tokens"), ("b_checked", 300, "refjose->joserfc tokens"), ("c_checked", 40, "published vectors")]
+REQUIRE = [("a_checked", 120, "joserfc->refjose tokens"), ("b_checked", 120, "refjose->joserfc tokens"), ("c_checked", 40, "published vectors")]
 
 
 def replay(ctx, case):
